@@ -258,7 +258,7 @@ def _run_conc(case):
       t.join()
     return tests
   try:
-    rbox, s = sched.run(sched.random_chooser(common.Rng('c19/%s' % case['rseed']), case.get('switch', 0.4)), body,
+    rbox, s = sched.run(sched.chooser_for(case, 'c19'), body,
                         max_steps=200000)
   finally:
     logs.initialize_record_handler, logs.remove_record_handler = orig_init, orig_rem
